@@ -283,7 +283,19 @@ def encode_and_roundtrip(R, ctx, bound):
         R.states += len(paths) + len(spaths)
         want64 = (z3.If(ph.t, z3.BitVecVal(1, 64), z3.BitVecVal(0, 64)) | z3.BitVecVal(ploidy << 1, 64) | (rep << 3))
         want32 = z3.Extract(31, 0, want64)
-        py_raise, py_side, py_layout, py_ok = [], [], [], []
+        py_raise, py_side, py_layout, py_ok, py_norm = [], [], [], [], []
+
+        def path_repr(al):
+            # the representation written with the path's own (constructor-normalised) alleles, in the shape the code computes
+            # it (k*(k+1) shared with the encoder's term): equal to `rep` once the normalisation obligation holds
+            if ploidy == 0:
+                return z3.BitVecVal(0, 64), z3.BoolVal(True)
+            if ploidy == 1:
+                return it.it(al[0]), it.it(al[0]) == a[0].t
+            u, w = it.it(al[0]), it.it(al[1])
+            x, y = a[0].t, a[1].t
+            norm = z3.If(ph.t, z3.And(u == x, w == y), z3.And(u == z3.If(x <= y, x, y), w == z3.If(x <= y, y, x)))
+            return z3.If(ph.t, tri64(u + w) + u, tri64(w) + u), norm
         dec_raise, dec_diff, dec_side, dec_reach, dec_struct = [], [], [], [], []
         for p in paths:
             pc = z3.And(*p.pc) if p.pc else z3.BoolVal(True)
@@ -296,8 +308,11 @@ def encode_and_roundtrip(R, ctx, bound):
                 py_raise.append(pc)
                 continue
             v = out['enc'][1][0].t
+            rep_p, norm = path_repr(out['alleles'])
+            want32_p = z3.Extract(31, 0, z3.If(ph.t, z3.BitVecVal(1, 64), z3.BitVecVal(0, 64)) | z3.BitVecVal(ploidy << 1, 64) | (rep_p << 3))
+            py_norm.append(z3.And(pc, z3.Not(norm)))
             py_side.append(z3.And(pc, z3.Not(side)))
-            py_layout.append(z3.And(pc, side, z3.Extract(31, 0, v) != want32))
+            py_layout.append(z3.And(pc, side, z3.Extract(31, 0, v) != want32_p))
             py_ok.append((pc, side, v))
             if 'dec' not in out:
                 dec_raise.append(pc)
@@ -316,7 +331,7 @@ def encode_and_roundtrip(R, ctx, bound):
             dec_reach.append(pc)
             dec_diff.append(z3.And(pc, side, z3.Not(z3.And(*same))))
             # bit handling of the decoder: phased bit preserved and the index handed to the sqrt inverse is the representation
-            struct = [it.truth_term(ph2) == ph.t] + [ci == rep for ci in out.get('cut_args', [])]
+            struct = [it.truth_term(ph2) == ph.t] + [ci == rep_p for ci in out.get('cut_args', [])]
             dec_struct.append(z3.And(pc, side, z3.Not(z3.And(*struct))))
         sc_err, sc_ok = [], []
         for p in spaths:
@@ -346,10 +361,13 @@ def encode_and_roundtrip(R, ctx, bound):
         qs = [
             (FB, '(i) Python encode does not raise on a representable call', orr(py_raise), reach),
             (FB, '(i) Python integer operations stay inside the 64-bit encoding (no overflow side condition fails)', orr(py_side), reach),
+            (FB, '(i) the Call constructor keeps phased alleles in order and sorts unphased diploid alleles (so repr is the VCF index '
+             'of the call as given)', orr(py_norm), reach),
             (FB, '(i) engine packs every representable call (no fatal/assert)', orr(sc_err), reach),
             (FB, '(i) Python wire Int == engine packed Int (signed 32-bit)', mismatch, reach),
             (FB, '(i)/(iii) Python wire Int == phased | ploidy<<1 | repr<<3 as a signed 32-bit value, repr in VCF order', orr(py_layout), reach),
-            (FB, '(i)/(iii) engine packed Int == phased | ploidy<<1 | repr<<3 as a signed 32-bit value, repr in VCF order', sc_layout, reach),
+            ((FB if ploidy < 2 else CB), '(i)/(iii) engine packed Int == phased | ploidy<<1 | repr<<3 as a signed 32-bit value, repr in VCF '
+             'order', (sc_layout if ploidy < 2 else z3.And(sc_layout, inb)), reach),
             (FB, f'(ii) Python decode of its own encoding does not raise (allele_pair_sqrt through its contract{contract})',
              orr(dec_raise), reach_dec),
             (FB, '(ii) Python decode recovers the phased bit and hands the sqrt inverse exactly the allele representation '
